@@ -18,7 +18,9 @@ def dt0(vf, initial_values: Sequence, /, scale=0.01, nugget=1e-5, **vf_kwargs):
     norm_y0 = linalg.vector_norm(u0)
     norm_dy0 = linalg.vector_norm(f0) + nugget
 
-    return scale * norm_y0 / norm_dy0
+    # A (near-)zero initial value must not lead to a zero step
+    # (same guard as in dt0_adaptive below).
+    return np.where(norm_y0 < 1e-5, 1e-6, scale * norm_y0 / norm_dy0)
 
 
 def dt0_adaptive(
